@@ -130,12 +130,12 @@ RECIPES = {
     "Option": ["Option('A', rec('dflt'))","Option('A')", "Option('A', 5)", "Option('S.X', Option('B'))", "Option('A', '{B}')", "Option('A', domain=[1, 2])",
                "Option('A', 1, domain=Option('DOM', [1, 2]))", "Option('L.0')", "Option('A', domain=lambda t: {2: True}[t])",
                "Option('A', 7, domain=lambda t: {2: True, 7: True}[t])"],
-    "Template": ["Template('{A}-{S.X}')", "Template('{A} {:p:}', p=Option('B', 2))"],
+    "Template": ["Template('inputs={S}')", "Template('{L}')", "Template('{A}-{S.X}')", "Template('{A} {:p:}', p=Option('B', 2))"],
     "_AllOptions": ["AllOptions"],
     "Dataset": ["ds(Option('A'), Option('B', 2))", "ds(Option('A'), options={'B': 1})", "ds(ds(Option('A')), Option('S.X', 0), default_options={'S': {'X': 4}})",
                 "ds(Option('A'), Option('S.B', 0), Option('S.C', 'c-fallback'), default_options={'S': {'B': 2, 'C': 3}, 'T': 5})",
                 "ds(Option('A'), Option('B', 0), options={'X': 1}, default_options={'B': 3})"],
-    "Map": ["Map(switch(Option('K'), {'x': Option('X'), 'y': Option('Y')}), {'K': Option('KINDS')}).apply(list)","Map(Option('A'), {'A': Option('XS')}).apply(list)", "Map(ds(Option('A'), Option('B', 0)), {'A': Option('XS'), 'B': [1, 2]}).apply(list)"],
+    "Map": ["Map(Option('S.X'), {'S.X': Option('XS')}).apply(list)", "Map(ds(Option('S.X'), Option('S.Y', 0)), {'S.X': [1, 2], 'S.Y': Option('XS')}).apply(list)","Map(switch(Option('K'), {'x': Option('X'), 'y': Option('Y')}), {'K': Option('KINDS')}).apply(list)","Map(Option('A'), {'A': Option('XS')}).apply(list)", "Map(ds(Option('A'), Option('B', 0)), {'A': Option('XS'), 'B': [1, 2]}).apply(list)"],
 }
 
 VALUES = [1, 2, 0, None, "{B}", [1, 2], {"X": 1}, True]
@@ -145,7 +145,7 @@ KEYS = ["A", "B", "T", "X", "Y", "Z", "S", "FN", "DOM", "XS", "L"]
 def dict_universe(rnd, n):
     out = [{}, {"A": 1}, {"A": 2, "B": 3}, {"A": 1, "X": 5, "Z": 9}, {"A": 1, "T": 0, "X": 4, "Y": 6, "Z": 7},
            {"S": {"X": 1, "Y": 2}}, {"A": "{B}", "B": 2}, {"A": "{NOPE}"}, {"A": 0}, {"A": None, "Z": 1}, {"A": 3, "S": {"X": 2}, "B": 1},
-           {"A": 1, "S": 5}, {"XS": [1, 2], "B": 1}, {"LOGGING": {"LEVEL": 0, "KEEP": 2}, "SERVICE_A": {"LOGGING": {"LEVEL": 5}}, "SERVICE_B": {"LOGGING": {"LEVEL": 0}}},
+           {"A": 1, "S": 5}, {"XS": [1, 2], "B": 1}, {"S": {"X": ["{ROOT}/a.csv"]}}, {"L": [{"p": "{ROOT}"}], "A": 1}, {"S": {"X": ["{A}/a.csv"]}, "A": 1}, {"LOGGING": {"LEVEL": 0, "KEEP": 2}, "SERVICE_A": {"LOGGING": {"LEVEL": 5}}, "SERVICE_B": {"LOGGING": {"LEVEL": 0}}},
            {"SERVICE_A": {"LOGGING": {"LEVEL": 9}}, "LOGGING": {"KEEP": 1}}, {"SERVICE_B": {"LOGGING": {"FMT": ""}}}, {"KINDS": ["x", "y"], "X": 1, "Y": 2}, {"KINDS": ["y"], "Y": 2}, {"L": [7, 8]}, {"A": 1, "DOM": [1, 2]}, {"A": 3, "DOM": [1, 2]}]
     for _ in range(n):
         d = {}
@@ -199,9 +199,19 @@ def chain(e):
         e = e.__cause__
 
 
+def missing_key(e):
+    """the key of the innermost KeyNotFoundError of the cause chain"""
+    from labrea.exceptions import KeyNotFoundError
+    k = None
+    for x in chain(e):
+        if isinstance(x, KeyNotFoundError):
+            k = x.key
+    return k
+
+
 def is_missing(e):
     from labrea.exceptions import KeyNotFoundError
-    return isinstance(origin(e), KeyNotFoundError)
+    return any(isinstance(x, KeyNotFoundError) for x in chain(e))
 
 
 def present(o, k):
@@ -249,6 +259,8 @@ def check_law(law, expr, o, fresh):
     """returns None or a message. `fresh()` builds a new instance of the expression (cold caches)."""
     from labrea.exceptions import EvaluationError, InsufficientInformationError
     e = fresh()
+    if law != "C04" and not hasattr(e, "evaluate"):
+        return None
     if law in ("L1", "L2"):
         ks = outcome(lambda: e.keys(copy.deepcopy(o)))
         if ks[0] != "ok":
@@ -301,8 +313,8 @@ def check_law(law, expr, o, fresh):
                 return f"explain {sorted(X)} does not cover keys {sorted(ks[1])}"
             if not absent and v[0] == "err" and is_missing(v[1]):
                 return f"explain {sorted(X)} lists nothing absent but validate fails for missing {origin(v[1])!r}"
-            if v[0] == "err" and is_missing(v[1]) and getattr(origin(v[1]), "key", None) not in absent:
-                return f"validate names missing key {getattr(origin(v[1]), 'key', None)!r} which explain {sorted(X)} does not list as absent"
+            if v[0] == "err" and is_missing(v[1]) and missing_key(v[1]) not in absent:
+                return f"validate names missing key {missing_key(v[1])!r} which explain {sorted(X)} does not list as absent"
         if law == "L5b" and absent and v[0] == "ok":
             return f"explain lists absent {sorted(absent)} but validate passes"
         return None
@@ -457,6 +469,34 @@ def _shadowed(o, d, prefix=""):
     return False
 
 
+def _section_in_text(root, o):
+    """F28: a {KEY} embedded in longer text whose value is a section (or holds one): str() of it contains braces, which confectioner.resolve
+    then takes for template keys"""
+    import re
+    from confectioner.templating import get_dotted_key
+    texts = []
+    for e in _walk(root):
+        if type(e).__name__ == "Template":
+            texts.append(e.template)
+        if type(e).__name__ == "Option" and type(getattr(e, "default", None)).__name__ == "Template":
+            texts.append(e.default.template)
+    def strings(v):
+        if isinstance(v, str):
+            yield v
+        elif isinstance(v, dict):
+            for x in v.values():
+                yield from strings(x)
+        elif isinstance(v, list):
+            for x in v:
+                yield from strings(x)
+    texts += list(strings(o))
+    for t in texts:
+        for k in re.findall(r"(?<!\\){([^\\]*?)}", t):
+            if t != "{" + k + "}" and present(o, k) and "{" in str(get_dotted_key(k, o)):
+                return True
+    return False
+
+
 def known_region(recipe, o, law):
     """recorded findings (known_findings.json): inputs inside their regions are not reported again"""
     if law in ("C05", "C08", "C06", "C04"):
@@ -465,6 +505,8 @@ def known_region(recipe, o, law):
         root = build(recipe)
     except Exception:  # noqa
         return False
+    if _section_in_text(root, o):
+        return "F28"
     S = None
     for e in _walk(root):
         n = type(e).__name__
